@@ -82,29 +82,15 @@ pub fn zero_numerator(form: u8) {
     reached();
 }
 
-//@ id=C05 tier=quick to=600 cfg=std desc="ground: x/x == 1 exactly for a list of concrete valid values through TwoFloat/TwoFloat, /= and the mixed forms (the symbolic clause is out of reach: chained FP dividers)"
-#[cfg_attr(kani, kani::proof)]
-#[cfg_attr(kani, kani::unwind(8))]
-pub fn c05_self_division_ground() {
-    let vals = [
-        tf(1.0, 0.0),
-        tf(3.0, 0.0),
-        tf(core::f64::consts::PI, 1.2246467991473532e-16),
-        tf(1.0, pow2(-53)),
-        tf(-7.5, pow2(-60)),
-        tf(pow2(300), -pow2(240)),
-    ];
-    let mut i = 0;
-    while i < 6 {
-        let x = vals[i];
-        assert!(spec_valid(x));
-        let r = x / x;
-        assert!(r.hi() == 1.0 && r.lo() == 0.0);
-        let mut t = x;
-        t /= x;
-        assert!(t.hi() == 1.0 && t.lo() == 0.0);
-        i += 1;
-    }
+/// x/x == 1 exactly for one concrete valid value (words pinned) through TwoFloat/TwoFloat and /=
+pub fn self_division_ground(hi: f64, lo: f64) {
+    let x = gtf(hi, lo);
+    assert!(spec_valid(x));
+    let r = x / x;
+    assert!(r.hi() == 1.0 && r.lo() == 0.0);
+    let mut t = x;
+    t /= x;
+    assert!(t.hi() == 1.0 && t.lo() == 0.0);
     reached();
 }
 
